@@ -2,7 +2,7 @@
 # usage: confirm_seed.sh <Cxx> <A|B>   -- confirms a seeded change in its scratch worktree:
 #   (1) existing suite passes with the change, (2) demo fails with it, (3) demo passes without it
 set -u
-P=$1; X=$2; W=/tmp/mut/$P; O=$W/out/$X
+P=$1; X=$2; W=${MUTROOT:-/tmp/mut}/$P; O=$W/out/$X
 export CARGO_TARGET_DIR=$W/target CARGO_NET_OFFLINE=true
 cd $W || exit 2
 git checkout -q -- . && git clean -qfd -e out -e target
